@@ -173,6 +173,37 @@ def ep_gate(prog: Program) -> RuleResult:
     return r
 
 
+def or_form(prog: Program) -> RuleResult:
+    """or_ picks the else-if form exactly when both sides range over the same *set* of variables."""
+    from ..dtable import explore, Sym, App
+
+    r = RuleResult("OR-FORM", "or_ builds the else-if form iff both sides range over the same set of variables, the union form otherwise", floor=3)
+    f = prog.func("symbolic.optimize_or")
+    paths = explore(prog, f, [Sym("left"), Sym("right")], inline=lambda q: False)
+    atoms = {a for val, _, _ in paths for a in val}
+    order_free = ("set(", "frozenset(", ".keys()")
+    cmp_atoms = [a for a in atoms if a[0] == "ord"]
+    ok_atoms = len(atoms) == 1 and len(cmp_atoms) == 1 and all(any(t.startswith(k) or t.endswith(".keys()") for k in order_free) for t in cmp_atoms[0][1:])
+    both_sides = ok_atoms and "left" in cmp_atoms[0][1] + cmp_atoms[0][2] and "right" in cmp_atoms[0][1] + cmp_atoms[0][2]
+    r.check(ok_atoms and both_sides, "optimize_or#set-comparison", f"{f.module.relpath}:{f.node.lineno}", str(sorted(map(str, atoms))),
+            "the decision compares the two variable *sets* (order and multiplicity of mention do not matter)",
+            f"the form of or_ is decided by {sorted(map(str, atoms))}, not by an order-insensitive comparison of the two sides' variable sets: conditions over the same variables "
+            f"mentioned in a different order are built as the union form, whose second pass yields every solution of the right side twice")
+    eq = [(val, out) for val, out, _ in paths if any(v == 0 for a, v in val.items() if a[0] == "ord")]
+    ne = [(val, out) for val, out, _ in paths if any(v != 0 for a, v in val.items() if a[0] == "ord")]
+    def built(out, name):
+        return out[0] == "return" and isinstance(out[1], App) and out[1].fn == name and [repr(a) for a in out[1].args] == ["left", "right"]
+    r.check(bool(eq) and all(built(o, "ElseIf") for _, o in eq), "optimize_or#same-variables->else-if", f"{f.module.relpath}:{f.node.lineno}", "", "same variables: ElseIf(left, right)",
+            "conditions over the same variables are not combined with the else-if form")
+    r.check(bool(ne) and all(built(o, "Union") for _, o in ne), "optimize_or#different-variables->union", f"{f.module.relpath}:{f.node.lineno}", "", "different variables: Union(left, right)",
+            "conditions over different variables are not combined with the union form (solutions of the right side for other variables are dropped)")
+    # the variable sets exclude literals and come from each side's unique variables
+    txt = src(f.node)
+    r.check(txt.count("_unique_variables_") >= 2 and "Literal" in txt, "optimize_or#variables-without-literals", f"{f.module.relpath}:{f.node.lineno}", "", "literals are not variables of a side",
+            "the compared sets are not the sides' unique non-literal variables")
+    return r
+
+
 def run(prog: Program, tier: str) -> List[RuleResult]:
     _cache.clear()
-    return [ep_bound(prog), ep_gate(prog)]
+    return [ep_bound(prog), ep_gate(prog), or_form(prog)]
